@@ -113,10 +113,6 @@ Proof.
       destruct (i <? a + b); destruct (_ <? b); reflexivity.
 Qed.
 
-Lemma firstn_firstn_min : forall a b l,
-  firstn a (firstn b l) = firstn (Nat.min a b) l.
-Proof. intros. apply firstn_firstn. Qed.
-
 End ListFacts.
 
 Arguments nth_ext_eq {A}.
@@ -626,7 +622,8 @@ Proof.
       eqn:Hcond.
   1,3: exists 0, [], b, r, e; rewrite (readn_stop _ b r n result e Hcond);
        rewrite Nat.sub_0_r, Nat.add_0_r, !app_nil_r; cbn [firstn skipn sum_c readn_log_ok chain];
-       repeat split; try lia; try reflexivity; try exact Hinv;
+       repeat match goal with |- _ /\ _ => split end;
+       try exact Hinv; try lia; try reflexivity;
        apply cond3_true in Hcond; lia.
   - apply cond3_false in Hcond. destruct Hcond as (_ & _ & Hn).
     specialize (Hfuel Hn). lia.
@@ -653,7 +650,9 @@ Proof.
     cbn [size used] in Hsz', Hu', Hok'.
     rewrite Hlg in *.
     exists (c + k'), ((m, c, e1) :: lg'), b', r', e'.
-    split. { rewrite Heq. repeat f_equal; lia. }
+    split.
+    { replace (n - (c + k')) with (n - c - k') by lia.
+      replace (result + (c + k')) with (result + c + k') by lia. exact Heq. }
     split; [exact Hinv'|]. split; [exact Hsz'|]. split; [lia|].
     split. { rewrite Habs', Habs1, Hsrc1, Hgot, firstn_plus, app_assoc. reflexivity. }
     split. { rewrite Hsrc', Hsrc1, skipn_skipn'. reflexivity. }
@@ -728,7 +727,8 @@ Proof.
   1,3: exists 0, [], b, w, e; rewrite (writeto_stop _ b w result e Hcond);
        rewrite Nat.sub_0_r, Nat.add_0_r, !app_nil_r;
        cbn [firstn skipn sum_c writeto_log_ok chain];
-       repeat split; try lia; try reflexivity; try exact Hinv;
+       repeat match goal with |- _ /\ _ => split end;
+       try exact Hinv; try lia; try reflexivity;
        apply cond2_true in Hcond; lia.
   - apply cond2_false in Hcond. destruct Hcond as (Hu0 & Hn).
     specialize (Hfuel Hn ltac:(lia)). unfold wneed in Hfuel.
@@ -774,7 +774,8 @@ Proof.
     assert (Hu1 : used b1 = used b - c) by reflexivity.
     rewrite Hsz1 in Hsz'. rewrite Hu1 in Hk', Hu', Hok'.
     exists (c + k'), ((dl, c, e1) :: lg'), b', w', e'.
-    split. { rewrite Heq. repeat f_equal; lia. }
+    split.
+    { replace (result + (c + k')) with (result + c + k') by lia. exact Heq. }
     split; [exact Hinv'|]. split; [exact Hsz'|]. split; [lia|]. split; [lia|].
     split. { rewrite Habs', Habs1, skipn_skipn'. reflexivity. }
     split. { rewrite Hsink', Hsink1, Habs1, firstn_plus, app_assoc. reflexivity. }
@@ -789,3 +790,312 @@ Proof.
 Qed.
 
 End Peers.
+
+Arguments reader_read_spec {A}.
+Arguments writer_write_spec {A}.
+Arguments readn_loop_spec {A}.
+Arguments readn_final n' used' size' e /.
+Arguments writeto_loop_spec {A}.
+Arguments wneed {A}.
+
+(* ================================================================== *)
+(* One step of the history refines the specification                   *)
+(* ================================================================== *)
+Lemma err_eqb_refl : forall e, err_eqb e e = true.
+Proof. destruct e; reflexivity. Qed.
+
+Section Eqs.
+Variable A : Type.
+Implicit Types b : buf A.
+
+Lemma read_n_from_eq : forall b (r : reader A) n b' r' n' result e,
+  readn_loop (length (rscript r) + 2) b r n 0 ENil = Some (b', r', n', result, e) ->
+  read_n_from b r n = Some (b', r', result, readn_final n' (used b') (size b') e).
+Proof.
+  intros b r n b' r' n' result e H. unfold read_n_from. rewrite H. reflexivity.
+Qed.
+
+Lemma write_to_eq : forall b (w : writer A) b' w' result e,
+  writeto_loop (length (wscript w) + 3) b w 0 ENil = Some (b', w', result, e) ->
+  write_to b w = Some (reset_if_empty b', w', result, e).
+Proof.
+  intros b w b' w' result e H. unfold write_to. rewrite H. reflexivity.
+Qed.
+
+End Eqs.
+
+Arguments read_n_from_eq {A} b r n {b' r' n' result e} _.
+Arguments write_to_eq {A} b w {b' w' result e} _.
+
+Section Refinement.
+Variable A : Type.
+Variable eqA : A -> A -> bool.
+Hypothesis eqA_spec : forall x y, eqA x y = true <-> x = y.
+Implicit Types b : buf A.
+
+Lemma list_eqb_refl : forall l : list A, list_eqb eqA l l = true.
+Proof.
+  induction l as [|a l IH]; [reflexivity|].
+  cbn [list_eqb]. rewrite IH. rewrite (proj2 (eqA_spec a a) eq_refl). reflexivity.
+Qed.
+
+Lemma step_refines : forall b (o : op A), inv b ->
+  spec_check eqA {| cap := size b; q := abs b |} o (snd (step b o)) =
+    Some {| cap := size b; q := abs (fst (step b o)) |} /\
+  inv (fst (step b o)) /\ size (fst (step b o)) = size b /\
+  snd (step b o) <> ROutOfFuel A.
+Proof.
+  intros b o Hinv. pose proof Hinv as (Hl & Hu & Hs).
+  pose proof (abs_length b Hinv) as Hal.
+  destruct o as [d|x|n| | |src script n|script| ]; cbn [step].
+  - (* Write *)
+    destruct (ring_write_spec b d Hinv) as (b' & Heq & Hinv' & Hsz & Habs).
+    cbv zeta in Heq, Habs. rewrite Heq. cbn [fst snd].
+    split; [|split; [exact Hinv'|split; [exact Hsz|discriminate]]].
+    unfold spec_check, spec_write. cbn [cap q]. rewrite Hal.
+    rewrite Nat.eqb_refl, err_eqb_refl. cbn [andb]. rewrite Habs. reflexivity.
+  - (* WriteByte *)
+    destruct (write_byte_spec b x Hinv) as (H1 & H2).
+    destruct (Nat.eq_dec (used b) (size b)) as [E|E].
+    + rewrite (H1 E). cbn [fst snd].
+      split; [|split; [exact Hinv|split; [reflexivity|discriminate]]].
+      unfold spec_check, spec_write_byte. cbn [cap q]. rewrite Hal.
+      replace (used b =? size b) with true by lia. reflexivity.
+    + destruct (H2 E) as (b' & Heq & Hinv' & Hsz & Habs). rewrite Heq. cbn [fst snd].
+      split; [|split; [exact Hinv'|split; [exact Hsz|discriminate]]].
+      unfold spec_check, spec_write_byte. cbn [cap q]. rewrite Hal.
+      replace (used b =? size b) with false by lia. cbn [err_eqb].
+      rewrite Habs. reflexivity.
+  - (* Read *)
+    destruct (ring_read_edge b n) as (H0 & HE).
+    destruct (Nat.eq_dec n 0) as [En|En].
+    + rewrite (H0 En). subst n. cbn [fst snd].
+      split; [|split; [exact Hinv|split; [reflexivity|discriminate]]].
+      reflexivity.
+    + destruct (Nat.eq_dec (used b) 0) as [Eu|Eu].
+      * rewrite (HE En Eu). cbn [fst snd].
+        split; [|split; [exact Hinv|split; [reflexivity|discriminate]]].
+        unfold spec_check, spec_read. cbn [cap q].
+        destruct n as [|n']; [lia|]. rewrite (abs_used0 b Eu). reflexivity.
+      * destruct (ring_read_spec b n Hinv En Eu) as (b' & Heq & Hinv' & Hsz & Habs).
+        rewrite Heq. cbn [fst snd].
+        split; [|split; [exact Hinv'|split; [exact Hsz|discriminate]]].
+        unfold spec_check, spec_read. cbn [cap q].
+        destruct n as [|n']; [lia|]. rewrite Habs.
+        destruct (abs b) as [|y t] eqn:Eabs; [cbn in Hal; lia|].
+        rewrite list_eqb_refl. reflexivity.
+  - (* ReadByte *)
+    destruct (read_byte_spec b Hinv) as (H1 & H2).
+    destruct (Nat.eq_dec (used b) 0) as [Eu|Eu].
+    + rewrite (H1 Eu). cbn [fst snd].
+      split; [|split; [exact Hinv|split; [reflexivity|discriminate]]].
+      unfold spec_check, spec_read_byte. cbn [cap q].
+      rewrite (abs_used0 b Eu). reflexivity.
+    + destruct (H2 Eu) as (b' & y & t & Eabs & Heq & Hinv' & Hsz & Habs).
+      rewrite Heq. cbn [fst snd].
+      split; [|split; [exact Hinv'|split; [exact Hsz|discriminate]]].
+      unfold spec_check, spec_read_byte. cbn [cap q]. rewrite Eabs.
+      cbn [opt_eqb]. rewrite (proj2 (eqA_spec y y) eq_refl). cbn [err_eqb andb].
+      rewrite Habs. reflexivity.
+  - (* Reset *)
+    cbn [fst snd].
+    split; [|split; [|split; [reflexivity|discriminate]]].
+    + reflexivity.
+    + unfold inv, reset. cbn [storage size start used]. lia.
+  - (* ReadNFrom *)
+    set (r0 := {| rsrc := src; rscript := script; rlog := [] |}).
+    assert (Hf : is_nil ENil = true -> length (rscript r0) < length (rscript r0) + 2)
+      by (intros _; lia).
+    destruct (readn_loop_spec (length (rscript r0) + 2) b r0 n 0 ENil Hinv Hf)
+      as (k & lg & b' & r' & e' & Heq & Hinv' & Hsz' & Hu' & Habs' & Hsrc' &
+          Hk1 & Hk2 & Hlog' & Hsum' & Hok' & Hch' & Hstop').
+    cbn [Nat.add] in Heq. unfold r0 in Habs', Hsrc', Hk1, Hlog'.
+    cbn [rsrc rlog app] in Habs', Hsrc', Hk1, Hlog'.
+    rewrite (read_n_from_eq b r0 n Heq). cbn [fst snd].
+    split; [|split; [exact Hinv'|split; [exact Hsz'|discriminate]]].
+    assert (Hcons : consumed_of src r' = firstn k src).
+    { unfold consumed_of. rewrite Hsrc', skipn_length.
+      replace (length src - (length src - k)) with k by lia. reflexivity. }
+    assert (Hu'' : used b + k <= size b).
+    { destruct Hinv' as (_ & Hx & _). lia. }
+    pose proof (readn_err_ok e' n k (used b) (size b) Hk2 Hu''
+                  ltac:(rewrite <- Hu', <- Hsz'; exact Hstop')) as (He1 & He2).
+    unfold spec_check. cbn [cap q]. cbv zeta. rewrite Hal.
+    rewrite Hcons, Hlog', Hsum', Nat.eqb_refl, list_eqb_refl, Hok'.
+    rewrite (chain_errs_nil lg ENil e' Hch'), (chain_last_nil lg e' Hch').
+    rewrite Hu', Hsz', He1, He2. cbn [andb].
+    rewrite Habs'. reflexivity.
+  - (* WriteTo *)
+    set (w0 := {| wsink := []; wscript := script; wlog := [] |}).
+    assert (Hf : is_nil ENil = true -> 0 < used b ->
+                 wneed b w0 <= length (wscript w0) + 3).
+    { intros _ _. unfold wneed. destruct (start b + used b <=? size b); lia. }
+    destruct (writeto_loop_spec (length (wscript w0) + 3) b w0 0 ENil Hinv Hf)
+      as (k & lg & b' & w' & e' & Heq & Hinv' & Hsz' & Hk' & Hu' & Habs' &
+          Hsink' & Hlog' & Hsum' & Hok' & Hch' & Hstop').
+    cbn [Nat.add] in Heq. unfold w0 in Hsink', Hlog'.
+    cbn [wsink wlog app] in Hsink', Hlog'.
+    rewrite (write_to_eq b w0 Heq). cbn [fst snd].
+    destruct (reset_if_empty_spec b' Hinv') as (Hi & Hsz & Ha & _).
+    split; [|split; [exact Hi|split; [lia|discriminate]]].
+    unfold spec_check. cbn [cap q]. cbv zeta. rewrite Hal.
+    rewrite Hsink', Hlog', Hsum', Nat.eqb_refl, list_eqb_refl, Hok'.
+    rewrite (chain_errs_nil lg ENil e' Hch'), (chain_last_nil lg e' Hch').
+    rewrite err_eqb_refl. cbn [andb].
+    replace (if is_nil e' then k =? used b else true) with true.
+    2:{ destruct (is_nil e'); [|reflexivity].
+        destruct Hstop' as [H|H]; [lia|discriminate H]. }
+    rewrite Ha, Habs'. reflexivity.
+  - (* Stat *)
+    cbn [fst snd].
+    split; [|split; [exact Hinv|split; [reflexivity|discriminate]]].
+    unfold spec_check. cbn [cap q]. rewrite Hal, !Nat.eqb_refl. reflexivity.
+Qed.
+
+(* ================================================================== *)
+(* Histories                                                           *)
+(* ================================================================== *)
+Lemma run_refines : forall (ops : list (op A)) b, inv b ->
+  spec_check_all eqA {| cap := size b; q := abs b |} ops (run b ops) = true.
+Proof.
+  induction ops as [|o ops IH]; intros b Hinv.
+  - reflexivity.
+  - cbn [run]. destruct (step_refines b o Hinv) as (Hc & Hi & Hsz & _).
+    destruct (step b o) as [b' r] eqn:Hst. cbn [fst snd] in Hc, Hi, Hsz.
+    cbn [spec_check_all]. rewrite Hc. rewrite <- Hsz. apply IH. exact Hi.
+Qed.
+
+End Refinement.
+
+Section Histories.
+Variable A : Type.
+Implicit Types b : buf A.
+
+(* The state facts (invariant, size, no fuel exhaustion) do not depend on an
+   element equality, so they are proved separately from [step_refines]. *)
+Lemma step_inv : forall b (o : op A), inv b ->
+  inv (fst (step b o)) /\ size (fst (step b o)) = size b /\
+  snd (step b o) <> ROutOfFuel A.
+Proof.
+  intros b o Hinv. pose proof Hinv as (Hl & Hu & Hs).
+  destruct o as [d|x|n| | |src script n|script| ]; cbn [step].
+  - destruct (ring_write_spec b d Hinv) as (b' & Heq & Hinv' & Hsz & Habs).
+    cbv zeta in Heq. rewrite Heq. cbn [fst snd].
+    split; [exact Hinv'|split; [exact Hsz|discriminate]].
+  - destruct (write_byte_spec b x Hinv) as (H1 & H2).
+    destruct (Nat.eq_dec (used b) (size b)) as [E|E].
+    + rewrite (H1 E). cbn [fst snd].
+      split; [exact Hinv|split; [reflexivity|discriminate]].
+    + destruct (H2 E) as (b' & Heq & Hinv' & Hsz & Habs). rewrite Heq. cbn [fst snd].
+      split; [exact Hinv'|split; [exact Hsz|discriminate]].
+  - destruct (ring_read_edge b n) as (H0 & HE).
+    destruct (Nat.eq_dec n 0) as [En|En].
+    + rewrite (H0 En). cbn [fst snd].
+      split; [exact Hinv|split; [reflexivity|discriminate]].
+    + destruct (Nat.eq_dec (used b) 0) as [Eu|Eu].
+      * rewrite (HE En Eu). cbn [fst snd].
+        split; [exact Hinv|split; [reflexivity|discriminate]].
+      * destruct (ring_read_spec b n Hinv En Eu) as (b' & Heq & Hinv' & Hsz & Habs).
+        rewrite Heq. cbn [fst snd].
+        split; [exact Hinv'|split; [exact Hsz|discriminate]].
+  - destruct (read_byte_spec b Hinv) as (H1 & H2).
+    destruct (Nat.eq_dec (used b) 0) as [Eu|Eu].
+    + rewrite (H1 Eu). cbn [fst snd].
+      split; [exact Hinv|split; [reflexivity|discriminate]].
+    + destruct (H2 Eu) as (b' & y & t & Eabs & Heq & Hinv' & Hsz & Habs).
+      rewrite Heq. cbn [fst snd].
+      split; [exact Hinv'|split; [exact Hsz|discriminate]].
+  - cbn [fst snd]. split; [|split; [reflexivity|discriminate]].
+    unfold inv, reset. cbn [storage size start used]. lia.
+  - set (r0 := {| rsrc := src; rscript := script; rlog := [] |}).
+    assert (Hf : is_nil ENil = true -> length (rscript r0) < length (rscript r0) + 2)
+      by (intros _; lia).
+    destruct (readn_loop_spec (length (rscript r0) + 2) b r0 n 0 ENil Hinv Hf)
+      as (k & lg & b' & r' & e' & Heq & Hinv' & Hsz' & _).
+    cbn [Nat.add] in Heq.
+    rewrite (read_n_from_eq b r0 n Heq). cbn [fst snd].
+    split; [exact Hinv'|split; [exact Hsz'|discriminate]].
+  - set (w0 := {| wsink := []; wscript := script; wlog := [] |}).
+    assert (Hf : is_nil ENil = true -> 0 < used b ->
+                 wneed b w0 <= length (wscript w0) + 3).
+    { intros _ _. unfold wneed. destruct (start b + used b <=? size b); lia. }
+    destruct (writeto_loop_spec (length (wscript w0) + 3) b w0 0 ENil Hinv Hf)
+      as (k & lg & b' & w' & e' & Heq & Hinv' & Hsz' & _).
+    cbn [Nat.add] in Heq.
+    rewrite (write_to_eq b w0 Heq). cbn [fst snd].
+    destruct (reset_if_empty_spec b' Hinv') as (Hi & Hsz & _).
+    split; [exact Hi|split; [lia|discriminate]].
+  - cbn [fst snd]. split; [exact Hinv|split; [reflexivity|discriminate]].
+Qed.
+
+Lemma run_state_inv : forall (ops : list (op A)) b, inv b ->
+  inv (run_state b ops) /\ size (run_state b ops) = size b.
+Proof.
+  induction ops as [|o ops IH]; intros b Hinv.
+  - split; [exact Hinv|reflexivity].
+  - cbn [run_state]. destruct (step_inv b o Hinv) as (Hi & Hsz & _).
+    destruct (IH _ Hi) as (Hi' & Hsz'). split; [exact Hi'|lia].
+Qed.
+
+Lemma run_no_fuel : forall (ops : list (op A)) b, inv b ->
+  ~ In (ROutOfFuel A) (run b ops).
+Proof.
+  induction ops as [|o ops IH]; intros b Hinv.
+  - cbn. auto.
+  - cbn [run]. destruct (step_inv b o Hinv) as (Hi & _ & Hne).
+    destruct (step b o) as [b' r] eqn:Hst. cbn [fst snd] in Hi, Hne.
+    cbn [In]. intros [H|H]; [exact (Hne H) | exact (IH b' Hi H)].
+Qed.
+
+Variable dflt : A.
+
+Lemma new_buffer_inv : forall n, inv (new_buffer dflt n) /\
+  size (new_buffer dflt n) = n /\ abs (new_buffer dflt n) = [].
+Proof.
+  intro n. unfold new_buffer, inv, abs. cbn [storage size start used firstn].
+  rewrite repeat_length. repeat split; lia.
+Qed.
+
+Lemma ring_state_refines :
+  forall (n : nat) (ops : list (op A)),
+    let b := run_state (new_buffer dflt n) ops in
+    inv b /\ size b = n /\ length (abs b) = used b /\ used b <= n.
+Proof.
+  intros n ops b. destruct (new_buffer_inv n) as (Hi & Hsz & _).
+  destruct (run_state_inv ops _ Hi) as (Hi' & Hsz'). fold b in Hi', Hsz'.
+  split; [exact Hi'|]. split; [lia|]. split; [apply abs_length; exact Hi'|].
+  destruct Hi' as (_ & Hu & _). lia.
+Qed.
+
+Lemma ring_no_out_of_fuel :
+  forall (n : nat) (ops : list (op A)),
+    ~ In (ROutOfFuel A) (run (new_buffer dflt n) ops).
+Proof.
+  intros n ops. apply run_no_fuel. apply new_buffer_inv.
+Qed.
+
+Variable eqA : A -> A -> bool.
+Hypothesis eqA_spec : forall x y, eqA x y = true <-> x = y.
+
+Lemma ring_fifo_refinement :
+  forall (n : nat) (ops : list (op A)),
+    spec_check_all eqA {| cap := n; q := [] |} ops
+                   (run (new_buffer dflt n) ops) = true.
+Proof.
+  intros n ops. destruct (new_buffer_inv n) as (Hi & Hsz & Ha).
+  pose proof (run_refines A eqA eqA_spec ops _ Hi) as H.
+  rewrite Hsz, Ha in H. exact H.
+Qed.
+
+End Histories.
+
+Arguments ring_state_refines {A} dflt n ops.
+Arguments ring_no_out_of_fuel {A} dflt n ops.
+Arguments ring_fifo_refinement {A} dflt eqA eqA_spec n ops.
+
+Lemma ring_inv_example :
+  inv {| storage := [7; 8; 9]; size := 3; start := 2; used := 2 |}
+  /\ abs {| storage := [7; 8; 9]; size := 3; start := 2; used := 2 |} = [9; 7].
+Proof.
+  split; [|reflexivity]. unfold inv. cbn [storage size start used length]. lia.
+Qed.
